@@ -291,21 +291,26 @@ func VP_C128_sym() {
 
 // length limits: 80 runes accepted, 81 rejected (two symbolic lower-case letters, the rest constant)
 func VP_C128_len() {
-	n := vpConfig("n")
-	raw := vpString("c", 2)
-	for i := 0; i < 2; i++ {
-		vpAssume(raw[i] >= 'a' && raw[i] <= 'z')
+	n := vpConfig("n")     // number of characters (runes)
+	fnc := vpConfig("fnc") // how many of them are FNC1 (a two-byte rune in the string)
+	raw := vpStringRange("c", 2, 'a', 'z')
+	content := ""
+	for i := 0; i < fnc; i++ {
+		content += string(FNC1)
 	}
-	content := raw[:1]
-	for i := 0; i < n-2; i++ {
+	rest := n - fnc
+	if rest >= 1 {
+		content += raw[:1]
+	}
+	for i := 0; i < rest-2; i++ {
 		content += "q"
 	}
-	if n >= 2 {
+	if rest >= 2 {
 		content += raw[1:]
 	}
 	bc, err := Encode(content)
 	if n >= 1 && n <= 80 {
-		vpAssert(err == nil && bc != nil, "up to 80 characters are accepted")
+		vpAssert(err == nil && bc != nil, "up to 80 characters are accepted (characters, not bytes)")
 		if bc != nil {
 			vpAssert(bc.Bounds().Dx() == 11*(n+2)+13, "start + n characters + check + stop")
 		}
@@ -314,7 +319,6 @@ func VP_C128_len() {
 	}
 	vpCover("reached", true)
 }
-
 
 // C15 / C16: purity (deterministic, history-free, no package-level writes)
 func VP_PURE() {
